@@ -123,7 +123,8 @@ PROPS = {
             {'name': 'val', 'requests': r'VAL ', 'panic_only': True},
             {'name': 'depth', 'panic_only': True},
         ],
-        'soak': {'quick': [('nested', 100000), ('chain', 100000)], 'thorough': [('nested', 100000), ('chain', 1000000), ('dots', 1000000), ('branches', 500000)]},
+        'soak': {'quick': [('nested', 100000), ('chain', 100000), ('dots', 200000), ('branches', 100000), ('ringlist', 200000)],
+                 'thorough': [('nested', 100000), ('chain', 1000000), ('dots', 1000000), ('branches', 500000), ('ringlist', 1000000)]},
         'rule': 'every suite of the harness with the panic behaviour of every response field compared (a panic of the real code where the model has none is a '
                 'disagreement): bounded-exhaustive and random strings incl. multi-byte and control characters, all small adjacency lists '
                 'incl. garbage (dangling, self, duplicate, asymmetric bonds), random well-formed and mutated graphs up to 300 atoms, ring-rich '
